@@ -13,4 +13,7 @@ git -C "$WT" checkout -q -- . && git -C "$WT" apply "$PATCH" || { echo "apply fa
 # share the compiled MIR front end and start from a copy of the current dump build (incremental re-check)
 if [ ! -d "$VT" ]; then mkdir -p "$VT"; cp -r /verif/target/mirdump "$VT/" 2>/dev/null; fi
 cd /verif && VERIF_REPO="$WT" VERIF_TARGET="$VT" VERIF_OUT="/tmp/alt/$TAG/out" timeout 3000 ./check "$PROP" --tier "$TIER" 2>&1 | grep -E "^VIOLATION|^INCONCLUSIVE|^KNOWN|^$PROP |^  " | cut -c1-260 | tail -8
-echo "exit=${PIPESTATUS[0]}"
+RC=${PIPESTATUS[0]}; echo "exit=$RC"
+# scratch copies are removed at once (disk): only out/ (evidence, replay files) and the Kani logs stay
+mkdir -p /tmp/alt/$TAG/out; cp -r "$VT/logs" /tmp/alt/$TAG/out/ 2>/dev/null
+git -C /repo worktree remove --force "$WT" 2>/dev/null; rm -rf "$VT" "$WT"
